@@ -193,7 +193,125 @@ func c12Scenario(s c12Spec) explore.Scenario {
 	}
 }
 
+// c12CloseFailScenario: the write that carries the CLOSE request fails once (a transient transport
+// error: the connection stays usable). Close reports the failure; the File is closed all the same:
+// every method returns os.ErrClosed and nothing carrying the handle reaches the wire any more.
+func c12CloseFailScenario(before string, eof bool) explore.Scenario {
+	return func() (func(), func(*vsched.Exec) explore.Verdict) {
+		var env *cliEnv
+		var closeErr, finalErr error
+		var after []error
+		var statAfter error
+		wireAtClose := -1
+		body := func() {
+			env = newCliEnv(func(e *cliEnv) {
+				e.peer.Permute = true
+				f := &pfile{data: pattern(8, 'a')}
+				e.peer.files["/f"] = f
+				e.peer.handles["h1"] = f
+				e.peer.hpath["h1"] = "/f"
+			}, MaxPacketUnchecked(2), MaxConcurrentRequestsPerFile(2))
+			if env.err != nil {
+				return
+			}
+			c := env.c
+			f := &File{c: c, path: "/f", handle: "h1"}
+			switch before {
+			case "ReadAt":
+				f.ReadAt(make([]byte, 4), 0)
+			case "Write":
+				f.Write([]byte("xy"))
+			}
+			env.c2s.FailOnce = env.c2s.Writes + 1
+			if eof {
+				env.c2s.FailErr = io.EOF
+			}
+			closeErr = f.Close()
+			wireAtClose = len(env.peer.Wire)
+			_, e1 := f.ReadAt(make([]byte, 1), 0)
+			_, e2 := f.Write([]byte("x"))
+			_, e3 := f.Seek(0, 0)
+			_, e4 := f.Stat()
+			e5 := f.Close()
+			_, e6 := f.Read(make([]byte, 1))
+			_, e7 := f.WriteAt([]byte("x"), 0)
+			e8 := f.Truncate(1)
+			e9 := f.Chmod(0o600)
+			after = []error{e1, e2, e3, e4, e5, e6, e7, e8, e9}
+			_, statAfter = c.Stat("/f") // the connection itself is still usable
+			finalErr = c.Close()
+		}
+		judge := func(e *vsched.Exec) explore.Verdict {
+			v := explore.Verdict{}
+			if e.Deadlock {
+				v.Outcome = "DEADLOCK"
+				return v
+			}
+			if env.err != nil {
+				v.Bad, v.Key = "NewClientPipe: "+env.err.Error(), "c12-newclient"
+				return v
+			}
+			v.Outcome = fmt.Sprintf("close=%v after=%v stat=%v wire=[%s]", closeErr, after, statAfter, env.peer.wireString())
+			fail := func(k, f string, a ...any) explore.Verdict {
+				v.Bad = fmt.Sprintf("Close whose request cannot be written (after %s): ", before) + fmt.Sprintf(f, a...) + "\n  " + v.Outcome
+				v.Key = "c12-closefail-" + k
+				return v
+			}
+			if closeErr == nil {
+				return fail("close-nil", "Close returned nil although its request never reached the server")
+			}
+			names := []string{"ReadAt", "Write", "Seek", "Stat", "Close", "Read", "WriteAt", "Truncate", "Chmod"}
+			for i, err := range after {
+				if !errors.Is(err, os.ErrClosed) {
+					return fail("after:"+names[i], "%s after Close returned %v, want os.ErrClosed", names[i], err)
+				}
+			}
+			for i, r := range env.peer.Wire {
+				if i >= wireAtClose && (r.handle == "h1" || r.typ == sshFxpClose) {
+					return fail("use-after-close", "request %s reached the wire after Close had returned", r)
+				}
+			}
+			if statAfter != nil || finalErr != nil {
+				return fail("connection", "the connection should have survived a single failed write: Stat %v, Client.Close %v", statAfter, finalErr)
+			}
+			return v
+		}
+		return body, judge
+	}
+}
+
 func init() {
+	reg.Part("C12/closefail", func(c *reg.Ctx) *reg.Result {
+		total := reg.NewResult(c.Part)
+		for _, before := range []string{"nothing", "ReadAt", "Write"} {
+			for _, eof := range []bool{false, true} {
+				r := explore.Run(explore.Config{Prop: "C12", Strategy: "db", Bound: c.ArgInt("bound", 2), Ctx: c, Label: c.Part}, c12CloseFailScenario(before, eof))
+				total.Evaluations += r.Evaluations
+				total.States += r.States
+				total.Transitions += r.Transitions
+				total.Distinct += r.Distinct
+				for k, v := range r.Outcomes {
+					total.Outcomes[fmt.Sprintf("%s/%v:%s", before, eof, k)] += v
+				}
+				for _, sm := range r.Samples {
+					total.Sample(sm)
+				}
+				for _, v := range r.Violations {
+					total.Violate("C12", v.Key, v.Msg, map[string]any{"before": before, "eof": eof, "schedule": v.Replay}, v.Trace)
+				}
+				if !r.Exhaustive {
+					total.Exhaustive = false
+				}
+				if r.EngineError != "" {
+					total.EngineError = r.EngineError
+					return total
+				}
+			}
+		}
+		total.Notes["db_completed"] = c.ArgInt("bound", 2)
+		total.Notes["db_target"] = c.ArgInt("bound", 2)
+		return total
+	})
 	reg.Part("C12/closerace", func(c *reg.Ctx) *reg.Result {
 		total := reg.NewResult(c.Part)
 		minDone := 1 << 30
@@ -249,9 +367,11 @@ func init() {
 				{Part: "C12/closerace", Build: "instr", Args: map[string]string{"bound": "3"}, Shards: 16, BudgetS: 900, Label: "Close || ReadAt || third, db3"},
 				{Part: "C12/closerace", Build: "instr", Args: map[string]string{"bound": "3", "conc": "0"}, Shards: 16, BudgetS: 600, Label: "Close || sequential ReadAt || third, db3"},
 				{Part: "C12/closerace", Build: "instr", Args: map[string]string{"strategy": "por", "thirds": "Stat"}, Shards: 16, BudgetS: 600, Label: "Close || ReadAt || Stat, por", Optional: true},
+				{Part: "C12/closefail", Build: "instr", Args: map[string]string{"bound": "3"}, Shards: 8, BudgetS: 300, Label: "Close whose request cannot be written (transient failure), db3"},
 			}
 		}
-		return []reg.Job{{Part: "C12/closerace", Build: "instr", Args: map[string]string{"bound": "3"}, Shards: 16, BudgetS: 100, Label: "Close || ReadAt || third, db3"}}
+		return []reg.Job{{Part: "C12/closerace", Build: "instr", Args: map[string]string{"bound": "3"}, Shards: 16, BudgetS: 100, Label: "Close || ReadAt || third, db3"},
+			{Part: "C12/closefail", Build: "instr", Args: map[string]string{"bound": "2"}, Shards: 4, BudgetS: 100, Label: "Close whose request cannot be written (transient failure), db2"}}
 	}
 	c12Prop.Rule += "; scheduled half: one File shared by three goroutines (Close || 3-chunk concurrent ReadAt || one of WriteAt, Stat, Truncate, a second Close, Read) against the permuting peer, all schedules with <= d deviations; " +
 		"oracle: each call returns its proper result or os.ErrClosed, exactly one CLOSE on the wire and nothing carrying the handle after it"
